@@ -257,6 +257,12 @@ func checkC20(c *Check) {
 	if uh != nil {
 		ruleSuffixInverse(c, p, handler, uh, "R20.9")
 	}
+	// R20.10: the shared object is pointed at this iteration's file before it is used
+	c.RuleDoc["R20.10"] = "the shared Writer/Reader is Reset onto the file opened for this argument before the copy"
+	ruleSinkBound(c, p, handler, "Writer", "compress", "R20.10")
+	if uh != nil {
+		ruleSinkBound(c, p, uh, "Reader", "uncompress", "R20.10")
+	}
 	// R20.8 client typestate
 	ruleClientTypestate(c, p, handler, "Writer", "compress")
 	if uh != nil {
@@ -509,4 +515,148 @@ func flagArgIndex(call *ssa.Call, flagOfValue func(ssa.Value) (flagVar, bool, bo
 		}
 	}
 	return -1
+}
+
+// ruleSinkBound: the handler shares one lz4 object over all arguments and points it at each file with Reset. Every
+// io.Copy through the object is preceded on all paths by a Reset; and for every file opened for the object (the output
+// file of compress, the input file of uncompress) no copy is reachable from the open call without the Reset onto that
+// file - otherwise the data of this argument goes to (or comes from) the file of the previous one.
+func ruleSinkBound(c *Check, p *Program, h *ssa.Function, typ, cmd, rule string) {
+	// the per-file work may live in helpers of package main: analyse every function of the handler's family that resets the object
+	seen := map[*ssa.Function]bool{h: true}
+	work := []*ssa.Function{h}
+	found := false
+	for d := 0; d < 4 && len(work) > 0; d++ {
+		var next []*ssa.Function
+		for _, g := range work {
+			if ruleSinkBoundIn(c, p, g, typ, cmd, rule) {
+				found = true
+			}
+			for _, ci := range callsIn(g) {
+				if f := staticCallee(ci); f != nil && f.Pkg == h.Pkg && len(f.Blocks) > 0 && !seen[f] {
+					seen[f] = true
+					next = append(next, f)
+				}
+			}
+			for _, a := range g.AnonFuncs {
+				if !seen[a] {
+					seen[a] = true
+					next = append(next, a)
+				}
+			}
+		}
+		work = next
+	}
+	if !found {
+		c.Fail(rule, "lz4c."+cmd+"#reset-per-file", p.Pos(h.Pos()), "the shared "+typ+" is pointed at each file with Reset", "no "+typ+".Reset call in the handler or its helpers")
+	}
+}
+
+func ruleSinkBoundIn(c *Check, p *Program, h *ssa.Function, typ, cmd, rule string) bool {
+	stripIface := func(v ssa.Value) ssa.Value {
+		for i := 0; i < 4; i++ {
+			switch x := v.(type) {
+			case *ssa.MakeInterface:
+				v = x.X
+				continue
+			case *ssa.ChangeInterface:
+				v = x.X
+				continue
+			}
+			break
+		}
+		return v
+	}
+	openOf := func(v ssa.Value) *ssa.Call {
+		v = stripIface(v)
+		if ex, ok := v.(*ssa.Extract); ok && ex.Index == 0 {
+			if call, isC := ex.Tuple.(*ssa.Call); isC && (calleeIs(call, "os", "OpenFile") || calleeIs(call, "os", "Open") || calleeIs(call, "os", "Create")) {
+				return call
+			}
+		}
+		return nil
+	}
+	var resets []ssa.CallInstruction
+	var obj ssa.Value
+	for _, ci := range callsIn(h) {
+		if isLz4(staticCallee(ci), typ+".Reset") {
+			resets = append(resets, ci)
+			obj = ci.Common().Args[0]
+		}
+	}
+	if len(resets) == 0 {
+		return false
+	}
+	var copies []ssa.Instruction
+	for _, ci := range callsIn(h) {
+		if !calleeIs(ci, "io", "Copy") {
+			continue
+		}
+		for _, a := range ci.Common().Args {
+			if stripIface(a) == obj {
+				copies = append(copies, ci)
+			}
+		}
+	}
+	isCopy := func(in ssa.Instruction) bool {
+		for _, x := range copies {
+			if x == in {
+				return true
+			}
+		}
+		return false
+	}
+	isAnyReset := func(in ssa.Instruction) bool {
+		for _, r := range resets {
+			if r == in {
+				return true
+			}
+		}
+		return false
+	}
+	c.Sites += len(copies)
+	unbound, _ := reachAvoid(h, nil, isCopy, isAnyReset)
+	c.Cond(len(copies) > 0 && !unbound, rule, "lz4c."+cmd+"#copy-after-reset", p.Pos(h.Pos()), "every io.Copy through the shared "+typ+" is preceded by a Reset (the object is created with a nil stream)", fmt.Sprintf("%d copies, each dominated by a Reset", len(copies)), fmt.Sprintf("copies through the %s: %d; one of them is reachable without any Reset: %v", typ, len(copies), unbound))
+	// per opened file
+	nBound, nOpen := 0, 0
+	wantOut := typ == "Writer"
+	for _, ci := range callsIn(h) {
+		call, ok := ci.(*ssa.Call)
+		if !ok || !(calleeIs(ci, "os", "OpenFile") || calleeIs(ci, "os", "Open") || calleeIs(ci, "os", "Create")) {
+			continue
+		}
+		isOut := false
+		if calleeIs(ci, "os", "Create") {
+			isOut = true
+		} else if calleeIs(ci, "os", "OpenFile") {
+			if k, isK := constUint(call.Call.Args[1]); isK && k&3 != 0 {
+				isOut = true
+			}
+		}
+		var mine []ssa.Instruction
+		for _, r := range resets {
+			if openOf(r.Common().Args[1]) == call {
+				mine = append(mine, r)
+			}
+		}
+		if isOut != wantOut && len(mine) == 0 {
+			continue // the other side's file
+		}
+		isMine := func(in ssa.Instruction) bool {
+			for _, r := range mine {
+				if r == in {
+					return true
+				}
+			}
+			return false
+		}
+		nOpen++
+		stale, _ := reachAvoid(h, call, isCopy, isMine)
+		if !stale {
+			nBound++
+		}
+		c.Cond(!stale, rule, "lz4c."+cmd+"#reset-onto-opened-file", p.InstrPos(call), "between opening the file of this argument and the copy, the shared "+typ+" is Reset onto that file on every path", "every path from the open call to a copy passes Reset(file)", "a copy through the "+typ+" is reachable from this open call without Reset onto the opened file: the data of this argument is written to / read from the stream of the previous argument (or the nil stream)")
+	}
+	c.Cond(nBound >= 1 || nOpen == 0, rule, "lz4c."+cmd+"#reset-per-file", p.Pos(h.Pos()), "the handler opens a file per argument and binds the "+typ+" to it", fmt.Sprintf("%d opened files bound", nBound), "no opened file is bound to the "+typ+" by Reset before the copy")
+	return true
 }
